@@ -6,9 +6,9 @@ import UPVerif.Core.MAProblem
 import UPVerif.Core.Compile.MACond
 /-
 `MADisjunctiveConditionsRemover._compile` and `_ma_goals_without_disjunctions_adding_new_elements`
-(engines/compilers/ma_disjunctive_conditions_remover.py:78-194) with the helpers inherited from
+(engines/compilers/ma_disjunctive_conditions_remover.py:90-206) with the helpers inherited from
 `DisjunctiveConditionsRemover`: `_create_non_disjunctive_actions` and
-`_create_new_action_with_given_precond` (disjunctive_conditions_remover.py:355-412, instantaneous
+`_create_new_action_with_given_precond` (disjunctive_conditions_remover.py:367-424, instantaneous
 branch).
 
 This is the builder of C37's OWN copy of the per-action DNF split (the single-agent model of
@@ -23,8 +23,8 @@ added it to the agent being processed, while the goal that mentions it is shared
 agent's actions reset it: both read, under every other agent, a fluent that does not exist.
 
 Kept as found (shared helpers, owned by C06/C07): an action all of whose effects vanish is dropped
-(D-C07); a conditional increase/decrease whose condition has several DNF disjuncts is split into one
-effect per disjunct (D-C06b).
+(l.400-401; finding D-C37-effectless-variant); a conditional increase/decrease whose condition has several
+DNF disjuncts is split into one effect per disjunct (l.388-393; finding D-C37-overlapping-disjuncts).
 -/
 namespace UPVerif.MA
 open UPVerif UPVerif.Expr UPVerif.Sim
